@@ -1395,6 +1395,9 @@ class ProgramData:
                 else:
                     option_name = option[1]
                     option_value = option[2:]
+                    if option_name in ["h", "t"] and option_value:
+                        # these take no value: trailing text is a mistyped option, not something to ignore
+                        raise RuntimeError("Invalid argument " + option)
             except IndexError:
                 raise RuntimeError("Invalid argument " + option)
             except StopIteration:
